@@ -1,35 +1,75 @@
-(** C15 — manifest reload equals in-memory state (PARTIAL).
+(** C15 — manifest reload equals in-memory state across rewrites and crashes.
 
-    Proved: replaying the manifest file that holds the encodings of the logged
-    edits yields the fold of [apply] over the edits (as the decoder returns them),
-    also when the file ends in a torn record that the reader reports as a clean
-    EOF; the decoder under replay never panics.  The round trip of the edit record
-    ([rt_edit]) is an explicit PREMISE on the codec model here — it has no proof
-    yet; it is checked on every generated edit by the C16 correspondence
-    (decode (real encode e) = e).  Not modelled: rewriteLocked / writeSnapshot /
-    CURRENT replacement and crash points (C15_snapshot, C15_crash_prefix are
-    absent); the correspondence checks reload equality across automatic rewrites
-    on the real code. *)
+    [hist_ok v es]: every edit fits its Go field types and its payload the 32-bit
+    length prefix ([edit_ok]), and an AddFile never adds a file id that its level
+    already holds ([fresh]: file ids are unique per level — sort.Slice in
+    writeSnapshot is not stable, so with duplicate ids the reloaded order is not
+    determined by the code).  [version_eq]: Spec/ManifestSpec.v.  The model
+    describes the code after fixes/manifest-reload-equals-memory.md. *)
 From Coq Require Import List NArith.
 From NoKV Require Import Base.Bytes Base.Num Model.ManifestCodec Model.Manifest Spec.ManifestSpec
-  Proofs.ManifestProofs Proofs.CodecProofs.
+  Proofs.ManifestCodecProofs Proofs.ManifestProofs Proofs.CodecProofs.
 Import ListNotations.
 Local Open Scope N_scope.
 
-Theorem C15_reload_partial : forall (ok : edit -> Prop) (cn : edit -> edit),
-  (forall e rest, ok e -> read_edit (enc_edit e ++ rest) = ReOk (cn e) rest) ->
-  forall es, Forall ok es ->
-  replay_manifest (enc_all es) = RpOk (apply_all empty_version (map cn es)).
-Proof. exact reload. Qed.
-Print Assumptions C15_reload_partial.
+(** the edit record round-trips (what was an explicit premise before) *)
+Theorem rt_edit : forall e rest, edit_ok e -> read_edit (enc_edit e ++ rest) = ReOk (cn e) rest.
+Proof. exact ManifestCodecProofs.rt_edit. Qed.
+Print Assumptions rt_edit.
 
-Theorem C15_torn_tail_partial : forall (ok : edit -> Prop) (cn : edit -> edit),
-  (forall e rest, ok e -> read_edit (enc_edit e ++ rest) = ReOk (cn e) rest) ->
-  forall es, Forall ok es -> forall tail, read_edit tail = ReEof ->
-  replay_manifest (enc_all es ++ tail) = RpOk (apply_all empty_version (map cn es)).
-Proof. exact reload_then_eof. Qed.
-Print Assumptions C15_torn_tail_partial.
+Theorem rt_edit_apply : forall v e, apply v (cn e) = apply v e.
+Proof. exact apply_cn. Qed.
+Print Assumptions rt_edit_apply.
+
+(** for every history given as LogEdits batches and every rewrite threshold: the
+    in-memory version is the fold of the edits, and a reopened manager reads an equal one *)
+Theorem C15_reload : forall thr batches,
+  hist_ok empty_version (concat batches) ->
+  let m := log_all (create_new thr) batches in
+  m_ver m = state_after (concat batches) /\
+  exists v', reload (m_fs m) = RpOk v' /\ version_eq v' (m_ver m).
+Proof. exact reload_eq. Qed.
+Print Assumptions C15_reload.
+
+(** a snapshot of any well-formed version reloads to an equal version *)
+Theorem C15_snapshot : forall v,
+  winv v -> lnodup v ->
+  exists v', replay_manifest (enc_all (snapshot_edits v)) = RpOk v' /\ version_eq v' v.
+Proof. exact snapshot_reload. Qed.
+Print Assumptions C15_snapshot.
+
+(** every reachable version is well-formed (so C15_snapshot applies to it) *)
+Theorem C15_reachable_wf : forall E, hist_ok empty_version E -> winv (state_after E) /\ lnodup (state_after E).
+Proof. exact state_winv. Qed.
+Print Assumptions C15_reachable_wf.
+
+(** a crash at any effect of a LogEdits call (torn append at any byte, snapshot write torn
+    at any byte, CURRENT.tmp with any content, after the rename, after the removal of the
+    old manifest): Verify + Open succeed and read the state after a prefix of the edits
+    that contains every edit of the calls that had returned *)
+Theorem C15_crash_prefix : forall thr batches batch fsc,
+  hist_ok empty_version (concat batches ++ batch) ->
+  crash_fs (log_all (create_new thr) batches) batch fsc ->
+  exists j v', (length (concat batches) <= j <= length (concat batches ++ batch))%nat /\
+               recover fsc = RpOk v' /\ version_eq v' (state_after (firstn j (concat batches ++ batch))).
+Proof. exact crash_prefix. Qed.
+Print Assumptions C15_crash_prefix.
+
+Theorem C15_version_eq_congruence : forall a b e,
+  version_eq a b -> lnodup a -> lnodup b -> fresh a e -> version_eq (apply a e) (apply b e).
+Proof. exact version_eq_apply. Qed.
+Print Assumptions C15_version_eq_congruence.
 
 Theorem C15_replay_never_panics : forall bs, read_edit bs <> RePanic.
 Proof. exact read_edit_total. Qed.
 Print Assumptions C15_replay_never_panics.
+
+(** non-vacuity: a history that triggers a rewrite *)
+Theorem C15_example :
+  let f := {| fm_level := 0; fm_id := 7; fm_size := 100; fm_smallest := []; fm_largest := []; fm_created := 1;
+              fm_vsize := 0; fm_ingest := false |} in
+  let bs := [[EAddFile f; ELogPointer 3 9]; [ELogPointer 4 10]] in
+  needs_rewrite (appended (create_new 20) (hd [] bs)) = true /\
+  reload (m_fs (log_all (create_new 20) bs)) = RpOk (m_ver (log_all (create_new 20) bs)).
+Proof. exact manifest_example. Qed.
+Print Assumptions C15_example.
